@@ -46,6 +46,10 @@ varint_decode(ByteBuffer *b, const size_t maxoctets, union varint64 *n)
     n->u = 0u;
 
     for (size_t i = 0u; i < maxoctets; ++i) {
+        if (b->offset >= b->size || i >= b->size - b->offset) {
+            /* The encoding is cut off by the end of the buffer's memory. */
+            return -ENODATA;
+        }
         const unsigned char datum = buf[i];
         n->u |= (uint64_t)(datum & VARINT_DATA_MASK) << (i * VARINT_DATA_BITS);
         if (varint_done(datum)) {
